@@ -278,7 +278,7 @@ PROPS = {
     },
     "C19": {
         "manifest": {
-            "text": "Each program is run on the real interpreter three times - no debugger, a recording debugger, and a debugger that overwrites every stack byte and conditional entry of every snapshot it receives (all 14 callbacks) - and verdicts and step traces must coincide with each other and with the Lean model; the recorded callback sequence must lie in the documented lifecycle, checked as a regular language by the driver. Lean theorems: consecutive AfterStep snapshots of a script are related by the instruction executed between them (induction over the run); in the reference model, scribbling over freshly copied snapshot cells leaves every live item of the execution unchanged.",
+            "text": "Each program is run on the real interpreter three times - no debugger, a recording debugger, and a debugger that overwrites every stack byte and conditional entry of every snapshot it receives (all 14 callbacks) - and verdicts and step traces must coincide with each other and with the Lean model; the recorded callback sequence must lie in the documented lifecycle, checked as a regular language by the driver. Lean theorems: callbacks_follow_lifecycle (a skeleton-emitting copy of the interpreter model has the verdict of the model and its callback skeleton is in the lifecycle language for every execution; the recorded callbacks of the real interpreter, stack events erased, must equal that skeleton on every run); consecutive AfterStep snapshots of a script are related by the instruction executed between them (induction over the run); in the reference model, scribbling over freshly copied snapshot cells leaves every live item of the execution unchanged.",
             "note": "The independence of the verdict from the debugger is by construction in the model (the execution function takes no debugger input) and by three-way comparison on the real code; thread.State() producing deep copies is an assumption checked by the scribbling runs. Trusted: Lean kernel + standard axioms, harness/generators/comparer, driver glue incl. the lifecycle automaton.",
         },
         "generators": ["C19"],
